@@ -242,5 +242,21 @@ func registry() map[string]PropSpec {
 		},
 		Assumptions: []string{"reflect.* modelled over the engine's typed heap; types, tags and field lists come from go/types of the current source"},
 	})
+	add(PropSpec{
+		ID: "C13",
+		Harnesses: []HSpec{
+			{Pkg: ".", Name: "c13_steps", Quick: map[string]int{"entries": 2, "depth": 0}, Thorough: map[string]int{"entries": 3, "depth": 0}, Unwind: [2]int{64, 64}, Budget: [2]int{120, 1500},
+				Models: []string{"net/url.Parse=vpModelURLParse", "path.Join=vpModelPathJoin"},
+				What:   "ordered.Unmarshal into Pipeline (Pipeline/Steps/GroupStep.UnmarshalOrdered, unmarshalStep, stepFromMap, the reflective unmarshaler) on decoded documents whose step sequence mixes valid and invalid scalars, well-formed maps of every kind, ill-typed and unknown-type maps, ints, nulls and groups; top level bare list / mapping / steps null / steps absent: no panic; a usable result is complete, ordered, non-nil, falls back verbatim with one warning leaf per fallback, and marshals to JSON"},
+			{Pkg: ".", Name: "c13_steps", Quick: map[string]int{"entries": 1, "depth": 1}, Thorough: map[string]int{"entries": 2, "depth": 1}, Unwind: [2]int{64, 64}, Budget: [2]int{120, 1500},
+				Models: []string{"net/url.Parse=vpModelURLParse", "path.Join=vpModelPathJoin"},
+				What:   "same with groups holding up to two children of every kind (recursion into groups, failures absorbed by the enclosing step)"},
+		},
+		Outside: []string{
+			"`for any byte sequence ... bounded time ... never panics` through yaml.v3's scanner/parser/resolver (about 10 kLoC of third-party byte-level code) - a hand-written SSA->SMT executor cannot run it symbolically; this half of C13 is not claimed",
+			"YAML marshalling of the result (yaml.v3 encoder); more entries / deeper groups than the bounds",
+		},
+		Assumptions: []string{"reflect.* over the engine heap; json.Marshal in the abstract JSON data model (marshal errors from MarshalJSON methods are propagated)"},
+	})
 	return r
 }
